@@ -898,8 +898,44 @@ fn run_c04(seed: u64, n: usize, oracle_only: bool, out: &mut Out) {
     let mut rng = Rng::new(seed);
     let schema = world::schema();
     let mut stats = GenStats { generated: 0, frontend_rejected: 0, frontend_panicked: 0, reject_kinds: Default::default() };
-    for i in 0..n {
-        let c = gen_world(&mut rng, &schema, &mut stats);
+    // next to the generated worlds: a template family in which a tag defined INSIDE an @optional scope
+    // (a property tag or a fold-count tag) is the operand of a filter on a later vertex, so that the
+    // dynamic hint is resolved on rows where the optional scope does not exist (the filter passes there)
+    let optional_tag_family = (n / 5).max(40);
+    for i in 0..(n + optional_tag_family) {
+        let c = if i < n {
+            gen_world(&mut rng, &schema, &mut stats)
+        } else {
+            let mut r2 = rng.fork();
+            let root = *r2.pick(&["Thing", "Item", "Box", "Gadget"]);
+            let e1 = *r2.pick(&["parent", "next(hi: 4)", "next(lo: 3)", "link"]);
+            let e2 = *r2.pick(&["next", "link", "next(hi: 6)"]);
+            let op = *r2.pick(&["=", "!=", "<", "<=", ">", ">=", "=", "!="]);
+            let (tagged, filtered) = match r2.range(0, 4) {
+                0 => ("id @tag(name: \"t\")".to_string(), format!("id @filter(op: \"{op}\", value: [\"%t\"])")),
+                1 => ("score @tag(name: \"t\")".to_string(), format!("id @filter(op: \"{op}\", value: [\"%t\"])")),
+                2 => ("nums @tag(name: \"t\")".to_string(), format!("id @filter(op: \"{}\", value: [\"%t\"])", r2.pick(&["one_of", "not_one_of"]))),
+                3 => ("link @fold @transform(op: \"count\") @tag(name: \"t\")".to_string(), format!("id @filter(op: \"{op}\", value: [\"%t\"])")),
+                _ => ("name @tag(name: \"t\")".to_string(), format!("name @filter(op: \"{}\", value: [\"%t\"])", r2.pick(&["=", "!=", "has_prefix", "has_substring"]))),
+            };
+            let text = format!("query {{ {root} {{ id @output(name: \"r\") {e1} @optional {{ {tagged} }} {e2} {{ {filtered} id @output(name: \"x\") }} }} }}");
+            let indexed = match trustfall_core::frontend::parse(&schema, &text) {
+                Ok(ix) => ix,
+                Err(e) => {
+                    out.oracle_fail("optional-tag template was rejected by the frontend", json!({"query": text}), json!({"error": format!("{e:?}")}));
+                    continue;
+                }
+            };
+            out.count("family:tag-from-optional-scope");
+            EngineCase {
+                dataset: world::gen_dataset(&mut r2, 8),
+                query_text: text,
+                indexed,
+                args: Arc::new(Default::default()),
+                features: Default::default(),
+                var_hints: Default::default(),
+            }
+        };
         count_features(out, &c);
         let input = case_input_json(&c);
         let plain = run_impl(&c);
